@@ -279,10 +279,19 @@ Proof.
   - destruct (cur s) as [m|] eqn:Hcur; [|inv H; apply WH_refl].
     assert (Hh : held s = true) by (apply HH; congruence).
     destruct (_ =? 0).
-    + destruct (flush_frame _ _ _ _ _) as [e1 s1] eqn:Hf.
+    + destruct chunks as [|[|b ch'] rest]; [inv H; apply WH_refl| |].
+      { destruct rest as [|r1 rest1]; [inv H; apply WH_refl|]. apply IH in H; assumption. }
+      destruct (flush_frame _ _ _ _ _) as [e1 s1] eqn:Hf.
       pose proof (flush_frame_MW _ _ _ _ _ _ _ Hcur Hf) as HM.
       apply flush_frame_WH in Hf; [|exact Hh].
-      destruct e1; [inv H; exact Hf|]. apply IH in H; [|eapply MW_CurHeld; eauto]. eapply WH_trans; eauto.
+      destruct e1; [inv H; exact Hf|].
+      assert (HM2 : MW c s (put_byte b s1)) by (eapply MW_trans; [exact HM|apply put_byte_MW]).
+      assert (HW2 : WH s (put_byte b s1)).
+      { unfold put_byte. destruct (cur s1); [|exact Hf]. wh_same. exact Hf. }
+      destruct ch' as [|b1 ch1]; [destruct rest as [|r1 rest1]|].
+      * inv H. exact HW2.
+      * apply IH in H; [|eapply MW_CurHeld; eauto]. eapply WH_trans; eauto.
+      * apply IH in H; [|eapply MW_CurHeld; eauto]. eapply WH_trans; eauto.
     + destruct chunks as [|ch rest]; [inv H; apply WH_refl|].
       destruct (dropN _ ch) as [|r0 rem]; [destruct rest as [|r1 rest1]|].
       * inv H. wh_same. apply WH_refl.
